@@ -1,7 +1,7 @@
 PROP = dict(
     harness="c20", level="exploration",
     make=["build/bin/c20", "build/gen/x86_forms.txt", "build/gen/a64_templates.txt"],
-    quick=dict(cases=320000, max_size=100, workers=16, extra_args=["--reps=8"]),
+    quick=dict(cases=640000, max_size=100, workers=16, extra_args=["--reps=16"]),
     thorough=dict(cases=8000000, max_size=100, workers=16, extra_args=["--reps=100"], timeout=7200),
     rule=("the C01 (x86-32/64 ISA-DB forms) and C02 (AArch64 templates) instance streams, each accepted instruction formatted with one of 6 FormatFlags sets "
           "through Formatter::format_instruction and through a StringLogger: (a) an independent inverse parser (architectural register-name tables) must "
